@@ -15,7 +15,6 @@ import (
 
 const zzNumRespShapes = 12
 
-
 // zzResponse builds a response-side envelope; bodies carry value v.
 func zzResponse(shape int, id uint64, v byte) *Rpc {
 	bad := []*goatorepo.KeyValue{{Key: "k-bin", Value: "!!not base64!!"}}
@@ -56,7 +55,7 @@ func zzResponse(shape int, id uint64, v byte) *Rpc {
 type zzNopStats struct{ events int }
 
 func (z *zzNopStats) TagRPC(ctx context.Context, _ *stats.RPCTagInfo) context.Context { return ctx }
-func (z *zzNopStats) HandleRPC(context.Context, stats.RPCStats)                        { z.events++ }
+func (z *zzNopStats) HandleRPC(context.Context, stats.RPCStats)                       { z.events++ }
 func (z *zzNopStats) TagConn(ctx context.Context, _ *stats.ConnTagInfo) context.Context {
 	return ctx
 }
